@@ -7,9 +7,22 @@ from lib.symx import assume
 KIND = sl('kind', 'phone')
 PAD = sl('pad', None)             # fix the pad index (splits the space into slices)
 
-PADS = ['', 'x ', 'call ', 'my no. is ', '(', 'tel:', 'a-', '请打 ', 'İ ']
+CULTURE = sl('culture', 'en-us')
+PADS = ['', 'x ', 'call ', 'my no. is ', '(', 'tel:', 'a-', '请打 ', 'İ ', ' ']
+if CULTURE == 'zh-cn':
+    PADS = ['', '我有', '大约 ', '（', 'x ', '１２ ', '请打 ', 'İ ', '第', ' ']
+    
 TAILS = ['', '.', ' now', ' ext 5', ', thanks', ')', ' 12']
+if CULTURE == 'zh-cn':
+    TAILS = ['', '。', '个', ' ok', '，谢谢', '）', '１２']
 
+ZH_POOLS = {
+    'number': (['', '负', '第'], ['三百二十一', '12', '１２', '一千零五', '3.5', '百分之五', '两万', '十几', '1,234', '三分之一']),
+    'percentage': (['', '大约'], ['百分之五', '5%', '百分之十二点五', '１２％']),
+    'currency': (['', '$', '人民币', '约'], ['五十元', '300美圆', '20', '五元', '３００美元', '20美元']),
+    'dimension': (['', '约'], ['五公里', '3米', '十二公斤', '5 km']),
+    'datetime': (['', '从', '在', '明天'], ['明天', '下周五', '2019年5月6日', '三点半', '5月6日下午3点', '昨天晚上', '2018年', '三天后', '1月到3月', '周一到周五']),
+}
 POOLS = {
     'phone': (['', '00-', '011-', '+1 ', '00 ', '+44 ', '1-'],
               ['1-206-555-0100', '(206) 555-0100', '206 555 0100', '555-0100', '+86 13912345678', '0 20 7946 0958', '4255550100', '(555) 123-4567 x89']),
@@ -50,12 +63,12 @@ def _recognize(kind, q):
     elif kind == 'datetime':
         from recognizers_date_time import recognize_datetime
         from datetime import datetime
-        return recognize_datetime(q, 'en-us', reference=datetime(2019, 4, 23, 8, 30))
+        return recognize_datetime(q, CULTURE, reference=datetime(2019, 4, 23, 8, 30))
     elif kind == 'number':
         from recognizers_number import recognize_number as f
     else:
         from recognizers_number import recognize_percentage as f
-    return f(q, 'en-us')
+    return f(q, CULTURE)
 
 
 def _norm(s):
@@ -100,6 +113,65 @@ def _install_add_to_monitor():
     BaseMergedExtractor.add_to = add_to
 
 
+F37 = []        # set by the monitor when ChineseMergedExtractor.add_mod changed an extract result during the current query
+
+
+def _install_zh_add_mod_monitor():
+    """ChineseMergedExtractor.add_mod (modifier widening: 从 / 之前 / 以后 ...) computes offsets and texts wrongly (known finding F37,
+    identified by this call site).  The monitor calls the real add_mod and records whether it changed any result; such queries are
+    in the region of F37 and are not judged here."""
+    from recognizers_date_time.date_time.chinese.merged_extractor import ChineseMergedExtractor
+    if getattr(ChineseMergedExtractor.add_mod, '_verif_monitor', False):
+        return
+    real = ChineseMergedExtractor.add_mod
+
+    def add_mod(self, extract_results, source):
+        before = [(e.start, e.length, e.text) for e in extract_results]
+        out = real(self, extract_results, source)
+        after = [(e.start, e.length, e.text) for e in extract_results]
+        if before != after:
+            F37.append((before, after))
+        return out
+    add_mod._verif_monitor = True
+    ChineseMergedExtractor.add_mod = add_mod
+
+
+F36 = []        # (span, span) pairs attributed to known finding F36 by the unit-model monitor during the current query
+
+
+def _unit_model_with_monitor(kind):
+    """the cached unit model of the culture with its extractors wrapped by recorders: a pair of results is attributed to F36 when the
+    later one comes from a later extractor/parser pair and lies inside or across the earlier one (decided on the recorded spans)"""
+    from recognizers_number_with_unit.number_with_unit.number_with_unit_recognizer import NumberWithUnitRecognizer
+    rec = NumberWithUnitRecognizer(CULTURE)
+    model = {'currency': rec.get_currency_model, 'dimension': rec.get_dimension_model}[kind]()
+    seen = {}
+    for idx, item in enumerate(model.extractor_parser):
+        ex = item.extractor
+        if not getattr(ex, '_verif_rec', False):
+            real = ex.extract
+
+            def extract(source, _real=real, _ex=ex):
+                out = _real(source)
+                _ex._verif_last = [(e.start, e.start + e.length - 1) for e in out]
+                return out
+            ex.extract = extract
+            ex._verif_rec = True
+    return model
+
+
+def _attribute_f36(model):
+    lists = [getattr(item.extractor, '_verif_last', []) for item in model.extractor_parser]
+    for j in range(1, len(lists)):
+        for i in range(j):
+            for (a, b) in lists[i]:
+                for (c, d) in lists[j]:
+                    apart = d < a or b < c
+                    covers = c <= a and b <= d
+                    if not apart and not covers:
+                        F36.append(((a, b), (c, d)))
+
+
 def disjoint(q, rs):
     sp = sorted((r.start, r.end, r.text) for r in rs)
     for i in range(len(sp)):
@@ -108,7 +180,13 @@ def disjoint(q, rs):
             if a[0] <= b[1] and b[0] <= a[1]:
                 if ((a[0], a[1]), (b[0], b[1])) in F3A or ((b[0], b[1]), (a[0], a[1])) in F3A:
                     continue
+                if ((a[0], a[1]), (b[0], b[1])) in F36 or ((b[0], b[1]), (a[0], a[1])) in F36:
+                    continue
                 assert False, ('overlap', q, a, b)
+
+
+if CULTURE == 'zh-cn':
+    POOLS = ZH_POOLS
 
 
 def build(a, b, c, d):
@@ -122,9 +200,20 @@ def h_compose(a: int, b: int, c: int, d: int):
     assume(PAD is None or a == PAD)
     q = build(int(a), int(b), int(c), int(d))
     del F3A[:]
+    del F37[:]
     if KIND == 'datetime':
         _install_add_to_monitor()
-    rs = _recognize(KIND, q)
+        if CULTURE == 'zh-cn':
+            _install_zh_add_mod_monitor()
+    del F36[:]
+    if CULTURE == 'zh-cn' and KIND in ('currency', 'dimension'):
+        model = _unit_model_with_monitor(KIND)
+        rs = model.parse(q)
+        _attribute_f36(model)
+    else:
+        rs = _recognize(KIND, q)
+    if F37:
+        return                       # region of known finding F37 (the modifier widening of the Chinese merged extractor touched a result)
     if KIND == 'datetime':
         # recorded finding F2, identified by its input: an empty entity for "... in 2014 through 2018"; F3a overlaps are identified by the add_to monitor
         rs = [r for r in rs if not (r.text == '' and '2014 through 2018' in q)]
